@@ -16,7 +16,7 @@ import vf_types as T
 from vf.lab.values import deep_typed_equal
 
 ERRK = ["ValueError", "KeyError", "ZeroDivisionError", "VErr"]
-CAP = 12
+CAP = 64
 
 
 class PT:
@@ -32,20 +32,25 @@ class Thunk:
 
 
 class Out:
-    __slots__ = ("oks", "errs")
+    """Outcome set. `overflow` marks a set of ok-alternatives that was truncated at CAP: a value
+    that matches none of the kept alternatives is then inconclusive, not a mismatch."""
+    __slots__ = ("oks", "errs", "overflow")
 
-    def __init__(self, oks=(), errs=()):
-        self.oks = list(oks)[:CAP]
+    def __init__(self, oks=(), errs=(), overflow=False):
+        oks = list(oks)
+        self.overflow = overflow or len(oks) > CAP
+        self.oks = oks[:CAP]
         self.errs = list(errs)
 
     def then(self, f):
         """Sequential bind: apply f (value -> Out) to every ok alternative; errors pass through."""
-        oks, errs = [], list(self.errs)
+        oks, errs, over = [], list(self.errs), self.overflow
         for v in self.oks:
             o = f(v)
             oks.extend(o.oks)
             errs.extend(o.errs)
-        return Out(oks, errs)
+            over = over or o.overflow
+        return Out(oks, errs, over)
 
 
 def ok(v):
@@ -60,11 +65,16 @@ def par(outs):
     """Parallel group: ok iff all ok (cartesian product of alternatives); any child's error may
     be the one observed."""
     errs = [e for o in outs for e in o.errs]
+    over = any(o.overflow for o in outs)
     if all(o.oks for o in outs):
+        total = 1
+        for o in outs:
+            total *= len(o.oks)
+        over = over or total > CAP
         oks = [list(c) for c in itertools.islice(itertools.product(*[o.oks for o in outs]), CAP)]
     else:
         oks = []
-    return Out(oks, errs)
+    return Out(oks, errs, over)
 
 
 def attempt(f, *a):
@@ -189,6 +199,13 @@ def interp(ast, env, cx):
                 env2["d2"] = 3
             if "d" in opts:
                 env2["d"] = vals[len(names)]
+            if opts.get("executor") == "nope":
+                # The executor is looked up only on a cache miss: an identical call made elsewhere
+                # (CSE / cache) yields the normal result, otherwise the job is rejected.
+                from redun.scheduler import SchedulerError
+
+                normal = run_job(body, env2, cx2)
+                return Out(normal.oks, normal.errs + [SchedulerError('Unknown executor "nope"')], normal.overflow)
             return run_job(body, env2, cx2)
 
         extra = [interp(opts["d"], env, cx)] if "d" in opts else []
@@ -235,7 +252,7 @@ def interp(ast, env, cx):
         expr, kinds, body, binds = ast[1], ast[2], ast[3], ast[4]
         classes = tuple(ERR[c] for c in kinds)
         o = interp(expr, env, cx)
-        oks, errs = list(o.oks), []
+        oks, errs, over = list(o.oks), [], o.overflow
         names = list(binds)
         for e in o.errs:
             if isinstance(e, classes):
@@ -243,14 +260,19 @@ def interp(ast, env, cx):
                     lambda vals, e=e: run_job(body, {**dict(zip(names, vals)), "x": e}, cx))
                 oks.extend(r.oks)
                 errs.extend(r.errs)
+                over = over or r.overflow
             else:
                 errs.append(e)
-        return Out(oks, errs)
+        return Out(oks, errs, over)
     if k == "catch_all":
         items, kinds, body = ast[1], ast[2], ast[3]
         outs = [interp(a, env, cx) for a in items]
         alts = [[("ok", v) for v in o.oks] + [("err", e) for e in o.errs] for o in outs]
         oks, errs = [], []
+        total = 1
+        for a in alts:
+            total *= max(1, len(a))
+        over = any(o.overflow for o in outs) or total > CAP
         for combo in itertools.islice(itertools.product(*alts), CAP):
             es = [v for t, v in combo if t == "err"]
             vals = [v for _, v in combo]
@@ -264,9 +286,10 @@ def interp(ast, env, cx):
                     r = run_job(body, {"x": vals}, cx)
                     oks.extend(r.oks)
                     errs.extend(r.errs)
+                    over = over or r.overflow
                 else:
                     errs.append(next(e for e in es if not isinstance(e, classes)))
-        return Out(oks, errs)
+        return Out(oks, errs, over)
     if k == "map":
         body, binds, xs = ast[1], ast[2], ast[3]
         names = list(binds)
@@ -379,6 +402,8 @@ def values_match(real, model) -> bool:
 
 
 def outcome_in(kind, payload, out: Out) -> bool:
+    if out.overflow:
+        return True     # the reference set was truncated: inconclusive, never a mismatch
     if kind == "ok":
         return any(values_match(payload, v) for v in out.oks)
     return any(err_key(payload) == err_key(e) for e in out.errs)
@@ -474,9 +499,10 @@ def lit_int(draw):
 
 @st.composite
 def programs(draw, max_depth=3, modes=("node",), errors=True, ctxs=False, limits=(), opts_rich=False,
-             allow=None):
+             allow=None, bad_exec=False):
     """A program = body of the root job (run as node(prog, {}))."""
     budget = [draw(st.integers(6, 26))]
+    uniq = [0]
     # error leaves only in ~40% of programs, so most programs evaluate completely
     err_on = errors and draw(st.integers(0, 4)) < 2
     allow_set = set(allow) if allow else None
@@ -499,6 +525,8 @@ def programs(draw, max_depth=3, modes=("node",), errors=True, ctxs=False, limits
             o["ctx"] = draw(ctx_dicts)
         if opts_rich and draw(st.integers(0, 3)) == 0:
             o["cache"] = draw(st.booleans())
+        if bad_exec and draw(st.integers(0, 5)) == 0:
+            o["executor"] = "nope"
         return o
 
     def gen_binds(vars_, depth, n=None):
@@ -555,7 +583,13 @@ def programs(draw, max_depth=3, modes=("node",), errors=True, ctxs=False, limits
                 o["d"] = gen(vars_, depth - 1, "int")      # the defaulted parameter passed explicitly
                 body = ["list", [["var", "d"], gen_body(bvars, depth - 1)]]
                 return [k, body, binds, o]
-            return [k, gen_body(bvars, depth - 1), binds, o]
+            body = gen_body(bvars, depth - 1)
+            if o.get("executor") == "nope":
+                # unique body: no identical twin call exists, so CSE cannot hand this call (or take
+                # from it) another call's outcome
+                uniq[0] += 1
+                body = ["list", [["lit", ["int", 1000 + uniq[0]]], body]]
+            return [k, body, binds, o]
         if k == "nout":
             n = draw(st.integers(1, 3))
             body = ["list", [lit_int(draw) if draw(st.booleans()) else gen(set(), depth - 2, "int") for _ in range(n)]]
